@@ -38,11 +38,11 @@ class SourceAbsent(Exception):
 
 
 class Ctx(object):
-    __slots__ = ('year', 'sol', 'sec', 'kv', 'partial', 'inputs', 'ops')
+    __slots__ = ('year', 'sol', 'sec', 'kv', 'partial', 'inputs', 'ops', 'refs')
 
     def __init__(self, year, sol, sec, partial, inputs):
         self.year, self.sol, self.sec, self.kv = year, sol, sec, sol[sec]
-        self.partial, self.inputs, self.ops = partial, inputs, []
+        self.partial, self.inputs, self.ops, self.refs = partial, inputs, [], []
 
     def _raw(self, ref):
         if '.' in ref:
@@ -53,7 +53,8 @@ class Ctx(object):
                     raise Skip(ref)
                 return None
         else:
-            kv, k = self.kv, ref
+            sec, kv, k = self.sec, self.kv, ref
+        self.refs.append((sec, k))
         v = kv.get(k)
         if v is None and self.partial:
             raise Skip(ref)
@@ -101,7 +102,10 @@ class Ctx(object):
     def each(self, form, line, where=None):
         """values of `line` over every instance of a multi-copy form present in the solution"""
         out = []
-        for s in self.instances(form):
+        inst = self.instances(form)
+        if not inst and self.partial:
+            raise Skip(form + ':*')
+        for s in inst:
             kv = self.sol[s]
             if where is not None and not where(kv):
                 continue
@@ -111,6 +115,7 @@ class Ctx(object):
                     raise Skip(f'{s}.{line}')
                 v = ''
             x = float(v) if v != '' else 0.0
+            self.refs.append((s, line))
             self.ops.append(x)
             out.append(x)
         return out
@@ -654,7 +659,7 @@ T(ALL, S8, 'clwkst_a_5', 'difference', DIFF('clwkst_a_3', 'clwkst_a_4'),
   'Credit Limit Worksheet A line 5: Subtract line 4 from line 3. Enter here and on Schedule 8812, line 13 (2021: line 14c / 15a)')
 # 2022 / 2023 layout
 T(Y2223, S8, '5', 'product', MUL('4', 2000.0), 'Schedule 8812 (2022/2023) line 5: Multiply line 4 by $2,000')
-T(Y2223, S8, '12', 'difference', DIFF('8', '11', floor=True),
+T(Y2223, S8, '12', 'difference', lambda c: (c.L('8') - c.L('11')) if c.L('8') > c.L('11') else None,
   'Schedule 8812 (2022/2023) line 12: Is the amount on line 8 more than the amount on line 11? No: enter -0- (on lines 14 and 27). '
   'Yes: subtract line 11 from line 8')
 T(Y2223, S8, '13', 'carry', CARRY('clwkst_a_5'), 'Schedule 8812 (2022/2023) line 13: Enter the amount from Credit Limit Worksheet A')
@@ -731,3 +736,427 @@ T(ALL, A6, '5', 'difference', DIFF('3', '4'), _A6 + 'line 5: Subtract line 4 fro
 T(ALL, A6, '7', 'difference', DIFF('5', '6'), _A6 + 'line 7: Is line 5 more than line 6? Yes: subtract line 6 from line 5')
 T(ALL, A6, '11', 'sum', SUM('7', '10'), _A6 + 'line 11: Add lines 7 and 10')
 T(ALL, A6, '12', 'product', MUL('11', 0.26), _A6 + 'line 12: Multiply line 11 by 26% (0.26)')
+
+# ---------------------------------------------------------------------------------------------------------------
+# Form 8889 (one per person: sections 8889:you / 8889:spouse)
+T(ALL, '8889', '5', 'difference', DIFF('3', '4', floor=True), 'Form 8889 line 5: Subtract line 4 from line 3. If zero or less, enter -0-')
+T(ALL, '8889', '8', 'sum', SUM('6', '7'), 'Form 8889 line 8: Add lines 6 and 7')
+T(ALL, '8889', '11', 'sum', SUM('9', '10'), 'Form 8889 line 11: Add lines 9 and 10')
+T(ALL, '8889', '12', 'difference', DIFF('8', '11', floor=True), 'Form 8889 line 12: Subtract line 11 from line 8. If zero or less, enter -0-')
+T(ALL, '8889', '13', 'smaller', MIN('2', '12'), 'Form 8889 line 13: HSA deduction. Enter the smaller of line 2 or line 12')
+T(ALL, '8889', '6', 'limit', CARRY('5'),
+  'Form 8889 line 6: Enter the amount from line 5 (spouses with separate HSAs and family coverage divide it: never more than line 5)', cmp='le')
+
+# Form 8959
+_MEDI = {'MarriedFilingJointly': 250000.0, 'MarriedFilingSeparately': 125000.0, '*': 200000.0}
+T(ALL, '8959', '1', 'carry', lambda c: _w2(c, 'box_5'), 'Form 8959 line 1: Medicare wages and tips from Form W-2, box 5 (total of all Forms W-2)')
+T(ALL, '8959', '4', 'sum', SUM('1', '2', '3'), 'Form 8959 line 4: Add lines 1 through 3')
+for _l in ('5', '9', '15'):
+    T(ALL, '8959', _l, 'amount', BYSTATUS(_MEDI),
+      f'Form 8959 line {_l}: Married filing jointly $250,000; Married filing separately $125,000; Single, Head of household, or Qualifying '
+      'widow(er)/surviving spouse $200,000')
+T(ALL, '8959', '6', 'difference', DIFF('4', '5', floor=True), 'Form 8959 line 6: Subtract line 5 from line 4. If zero or less, enter -0-')
+T(ALL, '8959', '7', 'product', MUL('6', 0.009), 'Form 8959 line 7: Multiply line 6 by 0.9% (0.009)')
+T(ALL, '8959', '10', 'carry', CARRY('4'), 'Form 8959 line 10: Enter the amount from line 4')
+T(ALL, '8959', '11', 'difference', DIFF('9', '10', floor=True), 'Form 8959 line 11: Subtract line 10 from line 9. If zero or less, enter -0-')
+T(ALL, '8959', '12', 'difference', DIFF('8', '11', floor=True), 'Form 8959 line 12: Subtract line 11 from line 8. If zero or less, enter -0-')
+T(ALL, '8959', '13', 'product', MUL('12', 0.009), 'Form 8959 line 13: Multiply line 12 by 0.9% (0.009)')
+T(ALL, '8959', '16', 'difference', DIFF('14', '15', floor=True), 'Form 8959 line 16: Subtract line 15 from line 14. If zero or less, enter -0-')
+T(ALL, '8959', '17', 'product', MUL('16', 0.009), 'Form 8959 line 17: Multiply line 16 by 0.9% (0.009)')
+T(ALL, '8959', '18', 'sum', SUM('7', '13', '17'), 'Form 8959 line 18: Add lines 7, 13, and 17')
+T(ALL, '8959', '19', 'carry', lambda c: _w2(c, 'box_6'), 'Form 8959 line 19: Medicare tax withheld from Form W-2, box 6 (total of all Forms W-2)')
+T(ALL, '8959', '20', 'carry', CARRY('1'), 'Form 8959 line 20: Enter the amount from line 1')
+T(ALL, '8959', '21', 'product', MUL('20', 0.0145), 'Form 8959 line 21: Multiply line 20 by 1.45% (0.0145)')
+T(ALL, '8959', '22', 'difference', DIFF('19', '21', floor=True), 'Form 8959 line 22: Subtract line 21 from line 19. If zero or less, enter -0-')
+T(ALL, '8959', '24', 'sum', SUM('22', '23'), 'Form 8959 line 24: Add lines 22 and 23')
+
+# Form 8995
+T(ALL, '8995', '5', 'product', MUL('4', 0.20), 'Form 8995 line 5: Multiply line 4 by 20% (0.20)')
+T(ALL, '8995', '6', 'carry', lambda c: sum(c.each('1099-div', 'box_5')),
+  'Form 8995 line 6 instructions: qualified REIT dividends include the section 199A dividends of Form 1099-DIV box 5 (PTP income aside)')
+T(ALL, '8995', '9', 'product', MUL('8', 0.20), 'Form 8995 line 9: Multiply line 8 by 20% (0.20)')
+T(ALL, '8995', '10', 'sum', SUM('5', '9'), 'Form 8995 line 10: Add lines 5 and 9')
+
+
+def _8995_11(c):
+    x = c.L('1040.11') - c.L('1040.12c' if c.year == 2021 else '1040.12')
+    return x if x >= 0 else None
+
+
+T(ALL, '8995', '11', 'difference', _8995_11,
+  'Form 8995 line 11 instructions: taxable income before the QBI deduction = Form 1040 line 11 minus line 12 (2021: line 12c)')
+T(ALL, '8995', '12', 'sum', lambda c: c.L('1040.3a') + max(0.0, c.L('1040.7')),
+  'Form 8995 line 12 instructions: Form 1040 line 3a (qualified dividends) plus the net capital gain (Form 1040 line 7 when Schedule D '
+  'is not required)')
+T(ALL, '8995', '13', 'difference', DIFF('11', '12', floor=True), 'Form 8995 line 13: Subtract line 12 from line 11. If zero or less, enter -0-')
+T(ALL, '8995', '14', 'product', MUL('13', 0.20), 'Form 8995 line 14: Multiply line 13 by 20% (0.20)')
+T(ALL, '8995', '15', 'smaller', MIN('10', '14'), 'Form 8995 line 15: Enter the smaller of line 10 or line 14')
+
+# Form 8606 Part I / II
+T(ALL, '8606', '3', 'sum', SUM('1', '2'), 'Form 8606 line 3: Add lines 1 and 2')
+T(ALL, '8606', '5', 'difference', DIFF('3', '4'), 'Form 8606 line 5: Subtract line 4 from line 3')
+T(ALL, '8606', '9', 'sum', SUM('6', '7', '8'), 'Form 8606 line 9: Add lines 6, 7, and 8')
+T(ALL, '8606', '10', 'ratio', lambda c: (min(1.0, c.L('5') / c.L('9')) if c.L('9') else None),
+  'Form 8606 line 10: Divide line 5 by line 9. Enter the result as a decimal rounded to at least 3 places. If 1.000 or more, enter 1.000',
+  places=5, tol=0.0005)
+T(ALL, '8606', '11', 'product', lambda c: c.L('8') * c.L('10'), 'Form 8606 line 11: Multiply line 8 by line 10')
+T(ALL, '8606', '12', 'product', lambda c: c.L('7') * c.L('10'), 'Form 8606 line 12: Multiply line 7 by line 10')
+T(ALL, '8606', '13', 'sum', SUM('11', '12'), 'Form 8606 line 13: Add lines 11 and 12')
+T(ALL, '8606', '14', 'difference', DIFF('3', '13'), 'Form 8606 line 14: Subtract line 13 from line 3')
+T(ALL, '8606', '15a', 'difference', DIFF('7', '12'), 'Form 8606 line 15a: Subtract line 12 from line 7')
+T(ALL, '8606', '15c', 'difference', DIFF('15a', '15b'), 'Form 8606 line 15c: Taxable amount. Subtract line 15b from line 15a')
+T(ALL, '8606', '16', 'carry', lambda c: c.L('8') if c.has('8') else None,
+  'Form 8606 line 16: If you completed Part I, enter the amount from line 8')
+T(ALL, '8606', '17', 'carry', lambda c: c.L('11') if c.has('11') else None,
+  'Form 8606 line 17: If you completed Part I, enter the amount from line 11')
+T(ALL, '8606', '18', 'difference', DIFF('16', '17'), 'Form 8606 line 18: Taxable amount. Subtract line 17 from line 16')
+
+# ===============================================================================================================
+# North Carolina (whole-dollar lines).  D-400, Schedule S, Schedule A, D-401 worksheets.
+NC, SS, NSA = 'nc_d-400', 'nc_d-400_ss', 'nc_d-400_sa'
+CW, UW = 'nc_d-400_child_deduction_wkst', 'nc_d-400_consumer_use_tax_wkst'
+NC_RATE = {2021: 0.0525, 2022: 0.0499, 2023: 0.0475}
+SS_ADD_TOTAL = {2021: '15', 2022: '16', 2023: '16'}
+SS_DED_TOTAL = {2021: '38', 2022: '41', 2023: '41'}
+
+
+def N(years, form, line, kind, fn, cite, **kw):
+    kw.setdefault('places', 0)
+    T(years, form, line, kind, fn, cite, **kw)
+
+
+N(ALL, NC, '6', 'carry', CARRY('1040.11'), 'D-400 line 6: Federal Adjusted Gross Income (Form 1040 line 11), whole dollars')
+
+
+def _nc_from_ss(total_by_year, gate):
+    def f(c):
+        ref = f'{SS}.{total_by_year[c.year]}'
+        g = c.yes(f'{NC}.{gate}')
+        if g is True and not c.partial:
+            return c.Lreq(ref)
+        if g is False:
+            return 0.0
+        return c.L(ref)
+    return f
+
+
+N(ALL, NC, '7', 'carry', _nc_from_ss(SS_ADD_TOTAL, 'additions_to_agi'),
+  'D-400 line 7: Additions to Federal Adjusted Gross Income (From Form D-400 Schedule S, Part A, Line 15 [2021] / Line 16 [2022, 2023], '
+  'the total additions line)')
+N(ALL, NC, '8', 'sum', SUM('6', '7'), 'D-400 line 8: Add Lines 6 and 7')
+N(ALL, NC, '9', 'carry', _nc_from_ss(SS_DED_TOTAL, 'deductions_from_agi'),
+  'D-400 line 9: Deductions From Federal Adjusted Gross Income (From Form D-400 Schedule S, Part B, Line 38 [2021] / Line 41 [2022, 2023])')
+N(ALL, NC, '10a', 'carry', CARRY(CW + '.3'), 'D-400 line 10a: Number of qualifying children (child deduction worksheet line 3)')
+N(ALL, NC, '10b', 'carry', CARRY(CW + '.5'), 'D-400 line 10b: Child Deduction (child deduction worksheet line 5)')
+N(ALL, NC, '11', 'carry', lambda c: c.L(NSA + '.10') if c.B('11_itemizing') else c.L(NSA + '.nc_standard_deduction'),
+  'D-400 line 11: N.C. Standard Deduction OR N.C. Itemized Deductions (D-400 Schedule A line 10), as the filled-in circle says')
+N(ALL, NC, '12a', 'sum', SUM('9', '10b', '11'), 'D-400 line 12a: Add Lines 9, 10b, and 11')
+N(ALL, NC, '12b', 'difference', DIFF('8', '12a'), 'D-400 line 12b: Subtract Line 12a from Line 8')
+N(ALL, NC, '14', 'carry', lambda c: c.L('12b') if c.L('13') == 0 else None,
+  'D-400 line 14: North Carolina Taxable Income; full-year residents enter the amount from Line 12b')
+for _y in YEARS:
+    N((_y,), NC, '15', 'product', (lambda r: lambda c: max(0.0, c.L('14') * r))(NC_RATE[_y]),
+      f'D-400 ({_y}) line 15: North Carolina Income Tax: multiply Line 14 by {NC_RATE[_y] * 100:.2f}% ({NC_RATE[_y]}); if zero or less, enter a zero')
+N(ALL, NC, '17', 'difference', DIFF('15', '16'), 'D-400 line 17: Subtract Line 16 from Line 15')
+N(ALL, NC, '18', 'carry', lambda c: 0.0 if c.B('no_consumer_use_tax') else c.L(UW + '.consumer_use_tax'),
+  'D-400 line 18: Consumer Use Tax (from the Consumer Use Tax Worksheet of the D-401 instructions)')
+N(ALL, NC, '19', 'sum', SUM('17', '18'), 'D-400 line 19: Add Lines 17 and 18')
+
+
+def _nc_withheld(owner):
+    def f(c):
+        return sum(c.each('w-2', 'box_17', where=lambda kv: kv.get('box_15') == 'NC' and kv.get('belongs_to') == owner))
+    return f
+
+
+N(ALL, NC, '20a', 'includes', _nc_withheld('taxpayer'), 'D-400 line 20a: Your North Carolina income tax withheld (Form(s) W-2 box 17, state NC)', cmp='ge')
+N(ALL, NC, '20b', 'includes', _nc_withheld('spouse'), "D-400 line 20b: Spouse's North Carolina income tax withheld (Form(s) W-2 box 17, state NC)", cmp='ge')
+N(ALL, NC, '23', 'sum', SUM('20a', '20b', '21a', '21b', '21c', '21d', '22'), 'D-400 line 23: Add Lines 20a through 22')
+N(ALL, NC, '25', 'difference', DIFF('23', '24'), 'D-400 line 25: Subtract Line 24 from Line 23')
+N(ALL, NC, '26a', 'difference', lambda c: (c.L('19') - c.L('25')) if c.L('19') > c.L('25') else 0.0,
+  'D-400 line 26a: Tax Due - If Line 19 is more than Line 25, subtract Line 25 from Line 19')
+N(ALL, NC, '26d', 'sum', SUM('26b', '26c'), 'D-400 line 26d: Add Lines 26b and 26c')
+N(ALL, NC, '27', 'sum', SUM('26a', '26d', '26e'), 'D-400 line 27: Add Lines 26a, 26d, and 26e - Pay This Amount')
+N(ALL, NC, '28', 'difference', lambda c: (c.L('25') - c.L('19')) if c.L('25') > c.L('19') else 0.0,
+  'D-400 line 28: Overpayment - If Line 19 is less than Line 25, subtract Line 19 from Line 25')
+N(ALL, NC, '33', 'sum', SUM('29', '30', '31', '32'), 'D-400 line 33: Add Lines 29 through 32')
+N(ALL, NC, '34', 'difference', DIFF('28', '33'), 'D-400 line 34: Subtract Line 33 from Line 28 - Amount To Be Refunded')
+
+# D-400 Schedule S
+N(Y21, SS, '15', 'sum', lambda c: sum(c.L(str(i)) for i in range(1, 15)), 'D-400 Schedule S (2021) Part A line 15: Total additions - Add Lines 1 through 14')
+N(Y2223, SS, '16', 'sum', lambda c: sum(c.L(str(i)) for i in range(1, 16)), 'D-400 Schedule S (2022/2023) Part A line 16: Total additions - Add Lines 1 through 15')
+N(Y21, SS, '22f', 'sum', SUM('22a', '22b', '22c', '22d', '22e'), 'D-400 Schedule S (2021) line 22f: Total bonus depreciation - Add Lines 22a through 22e')
+N(Y21, SS, '23f', 'sum', SUM('23a', '23b', '23c', '23d', '23e'), 'D-400 Schedule S (2021) line 23f: Total section 179 expense - Add Lines 23a through 23e')
+N(Y2223, SS, '23f', 'sum', SUM('23a', '23b', '23c', '23d', '23e'), 'D-400 Schedule S (2022/2023) line 23f: Add Lines 23a through 23e')
+N(Y2223, SS, '24f', 'sum', SUM('24a', '24b', '24c', '24d', '24e'), 'D-400 Schedule S (2022/2023) line 24f: Add Lines 24a through 24e')
+N(Y21, SS, '38', 'sum', lambda c: sum(c.L(str(i)) for i in range(16, 22)) + c.L('22f') + c.L('23f') + sum(c.L(str(i)) for i in range(24, 38)),
+  'D-400 Schedule S (2021) Part B line 38: Total deductions - Add Lines 16 through 21, 22f, 23f, and 24 through 37')
+N(Y2223, SS, '41', 'sum', lambda c: sum(c.L(str(i)) for i in range(17, 23)) + c.L('23f') + c.L('24f') + sum(c.L(str(i)) for i in range(25, 41)),
+  'D-400 Schedule S (2022/2023) Part B line 41: Total deductions - Add Lines 17 through 22, 23f, 24f, and 25 through 40')
+
+# D-400 Schedule A
+N(ALL, NSA, '3', 'sum', SUM('1', '2'), 'D-400 Schedule A line 3: Add Lines 1 and 2')
+N(ALL, NSA, '4', 'amount', CONST(20000.0), 'D-400 Schedule A line 4: Mortgage interest and real estate tax limitation $20,000')
+N(ALL, NSA, '5', 'smaller', MIN('3', '4'), 'D-400 Schedule A line 5: Enter the lesser of Line 3 or Line 4')
+N(ALL, NSA, '7b', 'carry', CARRY(NC + '.6'), 'D-400 Schedule A line 7b: Enter amount from Form D-400, Line 6 (federal adjusted gross income)')
+N(ALL, NSA, '7c', 'product', lambda c: (c.L('7b') * 0.075) if c.L('7b') >= 0 else None, 'D-400 Schedule A line 7c: Multiply Line 7b by 7.5% (0.075)')
+N(ALL, NSA, '7d', 'difference', DIFF('7a', '7c', floor=True), 'D-400 Schedule A line 7d: Subtract Line 7c from Line 7a. If Line 7c is more than Line 7a, enter zero')
+N(ALL, NSA, '10', 'sum', SUM('5', '6', '7d', '8', '9'), 'D-400 Schedule A line 10: Total N.C. itemized deductions - Add Lines 5, 6, 7d, 8, and 9')
+NC_STD = {2021: {'MarriedFilingJointly': 21500.0, 'QualifyingWidowWidower': 21500.0, 'HeadOfHousehold': 16125.0, '*': 10750.0},
+          2022: {'MarriedFilingJointly': 25500.0, 'QualifyingSurvivingSpouse': 25500.0, 'HeadOfHousehold': 19125.0, '*': 12750.0}}
+NC_STD[2023] = NC_STD[2022]
+for _y in YEARS:
+    N((_y,), NSA, 'nc_standard_deduction', 'amount',
+      (lambda t: lambda c: BYSTATUS(t)(c) if c.L('nc_standard_deduction') != 0 else None)(NC_STD[_y]),
+      f'D-400 ({_y}) N.C. standard deduction: single / married filing separately ${NC_STD[_y]["*"]:,.0f}, married filing jointly / surviving spouse '
+      f'${NC_STD[_y]["MarriedFilingJointly"]:,.0f}, head of household ${NC_STD[_y]["HeadOfHousehold"]:,.0f} (zero if not entitled to the federal one)')
+
+# D-401 child deduction worksheet
+_CHILD_STEP = {'MarriedFilingJointly': 20000.0, 'QualifyingWidowWidower': 20000.0, 'QualifyingSurvivingSpouse': 20000.0, 'HeadOfHousehold': 15000.0, '*': 10000.0}
+
+
+def _child_amount(c):
+    st = c.status()
+    if not st:
+        raise Skip('filing status')
+    step = _CHILD_STEP.get(st, _CHILD_STEP['*'])
+    agi = c.L('2')
+    top = 2500.0 if c.year == 2021 else 3000.0
+    # brackets: up to 2 steps -> top amount, then 500 less for every further step, zero beyond the last bracket
+    k = 0
+    bound = 2 * step
+    while agi > bound + 1e-9:
+        k += 1
+        bound += step
+    return max(0.0, top - 500.0 * k)
+
+
+N(ALL, CW, '2', 'carry', CARRY(NC + '.6'), 'D-401 child deduction worksheet line 2: Enter the amount from Form D-400, Line 6')
+N(ALL, CW, '4', 'amount', _child_amount,
+  'D-401 child deduction table: per child $2,500 (2021) / $3,000 (2022+) up to AGI $40,000 MFJ-SS / $30,000 HoH / $20,000 single-MFS, $500 '
+  'less for each further $20,000 / $15,000 / $10,000 of AGI, zero above $120,000 / $90,000 / $60,000 (2021) or $140,000 / $105,000 / $70,000 (2022+)')
+N(ALL, CW, '5', 'product', lambda c: c.L('3') * c.L('4'), 'D-401 child deduction worksheet line 5: Multiply Line 3 by Line 4. Enter on Form D-400, Line 10b')
+
+# D-401 consumer use tax worksheet
+N((2021, 2023), UW, '4', 'difference', DIFF('2', '3'), 'D-401 Consumer Use Tax Worksheet line 4: Subtract Line 3 from Line 2')
+N((2021, 2023), UW, '3', 'limit', CARRY('2'), 'D-401 Consumer Use Tax Worksheet line 3: tax paid to another state, not more than Line 2', cmp='le')
+N(Y22, UW, '6', 'difference', lambda c: c.L('2') + c.L('4') - c.L('5'),
+  'D-401 (2022) Consumer Use Tax Worksheet line 6: Add Lines 2 and 4 and subtract Line 5')
+N(ALL, UW, 'consumer_use_tax', 'carry',
+  lambda c: c.L('6' if c.year == 2022 else '4') if c.has('6' if c.year == 2022 else '4') else (c.L('estimate') if c.has('estimate') else None),
+  'D-400 line 18 instructions: the worksheet result when records were kept, else the Use Tax Table estimate')
+
+
+def _spouse_name(c):
+    """the tokens the line may be made of: the spouse's name as the return knows it"""
+    if not c.B('3') or c.inputs is None:
+        return None
+    toks = []
+    for k in ('spouse_first_name', 'spouse_middle_initial', 'spouse_last_name'):
+        toks += str(c.I('1040.' + k) or '').split()
+        toks += c.S('1040.' + k).split()
+    return sorted(set(t.upper() for t in toks))
+
+
+T(ALL, NC, 'separate_spouse_name', 'name', _spouse_name,
+  "D-400 filing status 3, Married Filing Separately: \"Enter your spouse's full name and Social Security Number\": the line is made of the "
+  "spouse's first name, middle initial and last name as given in the return", cmp='text')
+
+# ===============================================================================================================
+# lines that are habutax bookkeeping, not lines of an official form (no instruction exists for them)
+HELPER_LINES = {
+    '1040': {'itemizing', 'schedule_1_additional_income', 'schedule_2_part_i_needed', 'need_schedule_3_part_i'},
+    '1040_s8812': {'nonrefundable_ctc_or_odc', 'refundable_ctc_or_additional_ctc', 'additional_tax'},
+    '8606': {'taxable_amount'},
+    '8889': {'hsa_deduction'},
+    'nc_d-400': {'refund'},
+    'nc_d-400_sa': {'deduction'},
+}
+
+
+class Table(object):
+    """rules of one year: by_form[form][line] = [Rule]; the first non-crosscheck rules raise alarms"""
+
+    def __init__(self, year):
+        self.year = year
+        self.by_form = {}
+        self.template_report = None
+        trules, self.template_report = template_rules(year)
+        self.n_template = len(trules)
+        self.n_transcribed = self.n_crosscheck = 0
+        have = set()
+        for r in trules:
+            self.by_form.setdefault(r.form, {}).setdefault(r.line, []).append(r)
+            have.add((r.form, r.line))
+        for r in TRANSCRIBED[year]:
+            lst = self.by_form.setdefault(r.form, {}).setdefault(r.line, [])
+            if (r.form, r.line) in have and r.cmp == 'eq' and r.kind not in ('tax-table', 'amount'):
+                r.crosscheck = True
+                self.n_crosscheck += 1
+            else:
+                self.n_transcribed += 1
+            lst.append(r)
+        # the lines a rule can exist for
+        self.numeric = {}      # form -> {line: places}
+        for fname, form in TR.form_objects(year).items():
+            self.numeric[fname] = dict(TR.numeric_lines(form))
+        self.lines_with_oracle = sorted((f, l) for f, d in self.by_form.items() for l, rs in d.items() if any(not r.crosscheck for r in rs))
+
+    def summary(self):
+        total = sum(len(v) for v in self.numeric.values())
+        helpers = sum(1 for f, v in self.numeric.items() for l in v if l in HELPER_LINES.get(f, ()))
+        with_oracle = [(f, l) for f, l in self.lines_with_oracle if l in self.numeric.get(f, {})]
+        without = sorted((f, l) for f, v in self.numeric.items() for l in v
+                         if (f, l) not in set(with_oracle) and l not in HELPER_LINES.get(f, ()))
+        return dict(template_rules=self.n_template, transcription_rules=self.n_transcribed, transcription_crosschecks=self.n_crosscheck,
+                    numeric_lines=total, helper_lines=helpers, lines_with_oracle=len(with_oracle),
+                    non_numeric_lines_with_oracle=len(self.lines_with_oracle) - len(with_oracle),
+                    lines_without_oracle=[f'{f}.{l}' for f, l in without])
+
+
+@functools.lru_cache(maxsize=None)
+def table(year):
+    return Table(year)
+
+
+def _fmt(x):
+    return f'{x:.5f}'.rstrip('0').rstrip('.') if isinstance(x, float) else str(x)
+
+
+def _evaluate(rule, c):
+    """-> ('skip'|'na'|'absent', info) or ('ok', expected)"""
+    c.ops = []
+    c.refs = []
+    try:
+        exp = rule.fn(c)
+    except Skip as e:
+        return 'skip', str(e)
+    except SourceAbsent as e:
+        return 'absent', str(e)
+    if exp is None:
+        return 'na', None
+    return 'ok', exp
+
+
+def _compare(rule, actual, exp):
+    """-> None when the line agrees, else text"""
+    if rule.cmp == 'text':
+        toks = (actual or '').upper().split()
+        alien = [t for t in toks if t not in exp]
+        if not toks:
+            return 'is empty'
+        return f'contains {alien[:4]}, which are not part of the spouse name known to the return {exp}' if alien else None
+    try:
+        a = float(actual) if actual != '' else 0.0
+    except ValueError:
+        return f'is not a number: {actual!r}'
+    if rule.abs_compare:
+        a, exp = abs(a), abs(exp)
+    if rule.places == 0 and rule.cmp in ('ge', 'le'):
+        exp = round(exp, 0)
+    if rule.cmp == 'ge':
+        return None if a >= exp - 0.005 - EPS else f'is less than {_fmt(exp)}'
+    if rule.cmp == 'le':
+        return None if a <= exp + 0.005 + EPS else f'is more than {_fmt(exp)}'
+    if rule.places == 0 and rule.tol is None:
+        e, tol = round(exp, 0), 0.5
+    else:
+        e, tol = exp, (rule.tol if rule.tol is not None else 0.5 * 10 ** (-rule.places))
+    return None if abs(a - e) <= tol + EPS else f'expected {_fmt(e)}'
+
+
+def check_solution(year, solution, inputs=None, partial=False, only=None):
+    """-> (errors [(kind, message)], stats {counter: n})
+    stats carries, besides the totals, 'chk|form.line' / 'nt|form.line' / 'ds|form.line' per line
+    (checked / non-trivially: all operands non-zero and pairwise distinct / at least two distinct non-zero operands)
+    only=(section, line): judge that line alone (the other lines are just its operands)"""
+    tb = table(year)
+    errors = []
+    st = dict(lines_checked=0, lines_nontrivial=0, lines_discriminating=0, lines_skipped_missing_operand=0, lines_not_applicable=0,
+              lines_without_oracle=0, rules_evaluated=0, oracle_conflicts=0, oracle_crosschecks=0)
+    for sec, kv in solution.items():
+        if only is not None and sec != only[0]:
+            continue
+        form = sec.split(':', 1)[0]
+        rules = tb.by_form.get(form)
+        numeric = tb.numeric.get(form)
+        if numeric is None:
+            continue          # input forms (W-2, 1099...) carry the user's entries
+        c = None
+        for line, actual in kv.items():
+            if only is not None and line != only[1]:
+                continue
+            rs = rules.get(line) if rules else None
+            if not rs:
+                if line in numeric and line not in HELPER_LINES.get(form, ()):
+                    st['lines_without_oracle'] += 1
+                continue
+            if c is None:
+                c = Ctx(year, solution, sec, partial, inputs)
+            checked = False
+            main_exp = None
+            for r in rs:
+                st['rules_evaluated'] += 1
+                what, exp = _evaluate(r, c)
+                if r.crosscheck:
+                    if what == 'ok' and main_exp is not None:
+                        st['oracle_crosschecks'] += 1
+                        if abs(exp - main_exp) > 1e-6:
+                            st['oracle_conflicts'] += 1
+                            st[f'conflict|{form}.{line}'] = st.get(f'conflict|{form}.{line}', 0) + 1
+                    continue
+                if what == 'skip':
+                    st['lines_skipped_missing_operand'] += 1
+                    continue
+                if what == 'na':
+                    st['lines_not_applicable'] += 1
+                    continue
+                if what == 'absent':
+                    errors.append((f'{form}.{line}|carry-source-absent',
+                                   f'{year} {sec}.{line} = {actual!r} but the line it is carried from, {exp}, was never produced although the return '
+                                   f'declares it ({r.source}: {r.cite})'))
+                    checked = True
+                    continue
+                if r.source == 'TEMPLATE' and main_exp is None and isinstance(exp, float):
+                    main_exp = exp
+                checked = True
+                ops = c.ops
+                nz = [x for x in ops if x != 0]
+                if ops:
+                    if len(nz) == len(ops) and len(set(ops)) == len(ops):
+                        st['lines_nontrivial'] += 1
+                        st[f'nt|{form}.{line}'] = st.get(f'nt|{form}.{line}', 0) + 1
+                    if len(set(nz)) >= min(2, len(ops)):
+                        st['lines_discriminating'] += 1
+                        st[f'ds|{form}.{line}'] = st.get(f'ds|{form}.{line}', 0) + 1
+                elif actual not in ('', '0', '0.00'):
+                    st['lines_nontrivial'] += 1
+                    st['lines_discriminating'] += 1
+                    st[f'nt|{form}.{line}'] = st.get(f'nt|{form}.{line}', 0) + 1
+                    st[f'ds|{form}.{line}'] = st.get(f'ds|{form}.{line}', 0) + 1
+                bad = _compare(r, actual, exp)
+                if bad:
+                    errors.append((f'{form}.{line}|{r.kind}',
+                                   f'{year} {sec}.{line} = {actual!r} {bad} from operands {[_fmt(x) for x in ops[:12]]} '
+                                   f'[{r.source}: {r.cite[:260]}]'))
+            if checked:
+                st['lines_checked'] += 1
+                st[f'chk|{form}.{line}'] = st.get(f'chk|{form}.{line}', 0) + 1
+    return errors, st
+
+
+# ---------------------------------------------------------------------------------------------------------------
+_SEEN = {}
+
+
+def throttle(year, base_name, errors, per_process=2):
+    """the explorer keeps at most 400 violations per base; a defect that shows on every node of a base (a dropped 1099 box)
+    would crowd out the rare ones.  Each worker process therefore reports a kind at most `per_process` times per base."""
+    out = []
+    for kind, msg in errors:
+        k = (year, base_name, kind)
+        n = _SEEN.get(k, 0)
+        if n < per_process:
+            _SEEN[k] = n + 1
+            out.append((kind, msg))
+    return out
